@@ -85,11 +85,20 @@ package oauth2
 // is left open here (it is decided by the strategy's own contract, see C06/C07).
 //@ pureiface oauth2.AuthorizeCodeStrategy.AuthorizeCodeSignature oauth2.AccessTokenStrategy.AccessTokenSignature oauth2.RefreshTokenStrategy.RefreshTokenSignature
 //@ interface AuthorizeCodeStrategy.ValidateAuthorizeCode
+//@   modifies validated_n
+//@   ensures err == nil ==> validated_n == upd(old(validated_n), token, old(validated_n[token]) + 1)
+//@   ensures err != nil ==> validated_n == old(validated_n)
 //@ interface AuthorizeCodeStrategy.GenerateAuthorizeCode
 //@ interface AccessTokenStrategy.ValidateAccessToken
+//@   modifies validated_n
+//@   ensures err == nil ==> validated_n == upd(old(validated_n), token, old(validated_n[token]) + 1)
+//@   ensures err != nil ==> validated_n == old(validated_n)
 //@ interface AccessTokenStrategy.GenerateAccessToken
 //@   ensures err == nil ==> signature == recv.AccessTokenSignature(ctx, token)
 //@ interface RefreshTokenStrategy.ValidateRefreshToken
+//@   modifies validated_n
+//@   ensures err == nil ==> validated_n == upd(old(validated_n), token, old(validated_n[token]) + 1)
+//@   ensures err != nil ==> validated_n == old(validated_n)
 //@ interface RefreshTokenStrategy.GenerateRefreshToken
 //@   ensures err == nil ==> signature == recv.RefreshTokenSignature(ctx, token)
 
@@ -105,7 +114,8 @@ package oauth2
 //@   let used = old(code_exists[sig]) && !old(code_active[sig])
 //@   let rid  = old(code_rid[sig])
 //@   requires c != nil && request != nil && !stored[request]
-//@   modifies acc_exists, ref_active, faults
+//@   modifies acc_exists, ref_active, faults, validated_n
+//@   ensures [C06.lookup-then-validate] err == nil ==> validated_n[code] > old(validated_n[code])
 //@   ensures [C01.replay-refused] used ==> err != nil
 //@   ensures [C01.replay-error-class] used && c.CanHandleTokenEndpointRequest(ctx, request) && old(request.GetClient().GetGrantTypes()).Has("authorization_code") ==> ekind(err) == "invalid_grant" || ekind(err) == "server_error"
 //@   ensures [C01.replay-invalid-grant-unless-fault] used && c.CanHandleTokenEndpointRequest(ctx, request) && old(request.GetClient().GetGrantTypes()).Has("authorization_code") && faults == old(faults) && old(code_req[sig]) != nil ==> ekind(err) == "invalid_grant"
@@ -132,7 +142,8 @@ package oauth2
 //@   let sig  = old(c.AuthorizeCodeStrategy.AuthorizeCodeSignature(ctx, code))
 //@   let txl  = implements(c.CoreStorage, storage.Transactional)
 //@   requires c != nil && requester != nil && responder != nil && !stored[requester]
-//@   modifies code_active, acc_exists, acc_rid, acc_client, acc_req, ref_exists, ref_active, ref_rid, ref_client, ref_acc, ref_req, stored, faults, tx_open, tx_begun, tx_committed, tx_rolledback, tx_commit_calls, tx_rollback_calls, snap_code_active, snap_acc_exists, snap_ref_exists, snap_ref_active
+//@   modifies code_active, acc_exists, acc_rid, acc_client, acc_req, ref_exists, ref_active, ref_rid, ref_client, ref_acc, ref_req, stored, faults, tx_open, tx_begun, tx_committed, tx_rolledback, tx_commit_calls, tx_rollback_calls, snap_code_active, snap_acc_exists, snap_ref_exists, snap_ref_active, snap_dev_live, dev_live, validated_n
+//@   ensures [C06.lookup-then-validate] err == nil ==> validated_n[code] > old(validated_n[code])
 //@   ensures [C01.redeem-needs-live-code] err == nil ==> old(code_exists[sig]) && old(code_active[sig])
 //@   ensures [C01.redeem-invalidates] err == nil ==> !code_active[sig]
 //@   ensures [C01.issued-with-request-id] err == nil ==> (forall s string :: acc_exists[s] && !old(acc_exists[s]) ==> acc_rid[s] == requester.GetID()) && (forall s string :: ref_exists[s] && !old(ref_exists[s]) ==> ref_rid[s] == requester.GetID())
@@ -162,7 +173,7 @@ package oauth2
 //@ func (*RefreshTokenGrantHandler).handleRefreshTokenEndpointStorageError
 //@   let txl = implements(c.TokenRevocationStorage, storage.Transactional)
 //@   requires c != nil
-//@   modifies tx_open, tx_rolledback, tx_rollback_calls, code_active, acc_exists, ref_exists, ref_active, faults
+//@   modifies tx_open, tx_rolledback, tx_rollback_calls, code_active, acc_exists, ref_exists, ref_active, dev_live, faults
 //@   ensures [C18.storage-error-nil-passes] storageErr == nil ==> err == nil && tables_unchanged() && tx_open == old(tx_open) && tx_rolledback == old(tx_rolledback) && tx_rollback_calls == old(tx_rollback_calls) && faults == old(faults)
 //@   ensures [C18.storage-error-refuses] storageErr != nil ==> err != nil
 //@   ensures [C18.faults-monotone] faults >= old(faults)
@@ -178,7 +189,7 @@ package oauth2
 //@   let txl = implements(c.TokenRevocationStorage, storage.Transactional)
 //@   let rid = old(req.GetID())
 //@   requires c != nil && req != nil
-//@   modifies tx_open, tx_begun, tx_committed, tx_rolledback, tx_commit_calls, tx_rollback_calls, snap_code_active, snap_acc_exists, snap_ref_exists, snap_ref_active, code_active, acc_exists, ref_exists, ref_active, faults
+//@   modifies tx_open, tx_begun, tx_committed, tx_rolledback, tx_commit_calls, tx_rollback_calls, snap_code_active, snap_acc_exists, snap_ref_exists, snap_ref_active, snap_dev_live, dev_live, code_active, acc_exists, ref_exists, ref_active, faults
 //@   ensures [C04.reuse-kills-family] err == nil ==> !ref_exists[signature] && (forall s string :: old(acc_exists[s]) && acc_rid[s] == rid ==> !acc_exists[s]) && (forall s string :: ref_exists[s] && ref_rid[s] == rid ==> !ref_active[s])
 //@   ensures [C04.reuse-touches-only-family] (forall s string :: acc_rid[s] != rid ==> acc_exists[s] == old(acc_exists[s])) && (forall s string :: ref_rid[s] != rid && s != signature ==> ref_active[s] == old(ref_active[s]) && ref_exists[s] == old(ref_exists[s]))
 //@   ensures [C04.reuse-issues-nothing] code_active == old(code_active) && (forall s string :: acc_exists[s] ==> old(acc_exists[s])) && (forall s string :: ref_active[s] ==> old(ref_active[s])) && (forall s string :: ref_exists[s] ==> old(ref_exists[s]))
@@ -196,7 +207,8 @@ package oauth2
 //@   let orig = old(ref_req[sig])
 //@   let canhandle = c.CanHandleTokenEndpointRequest(ctx, request) && old(request.GetClient().GetGrantTypes()).Has("refresh_token")
 //@   requires c != nil && request != nil && !stored[request] && request.GetClient() != nil
-//@   modifies tx_open, tx_begun, tx_committed, tx_rolledback, tx_commit_calls, tx_rollback_calls, snap_code_active, snap_acc_exists, snap_ref_exists, snap_ref_active, code_active, acc_exists, ref_exists, ref_active, faults
+//@   modifies tx_open, tx_begun, tx_committed, tx_rolledback, tx_commit_calls, tx_rollback_calls, snap_code_active, snap_acc_exists, snap_ref_exists, snap_ref_active, snap_dev_live, dev_live, code_active, acc_exists, ref_exists, ref_active, faults, validated_n
+//@   ensures [C06.lookup-then-validate] err == nil ==> validated_n[refresh] > old(validated_n[refresh])
 //@   ensures [C04.inactive-is-refused] reuse ==> err != nil
 //@   ensures [C04.reuse-error-class] reuse && canhandle ==> ekind(err) == "invalid_grant" || ekind(err) == "invalid_request" || ekind(err) == "server_error"
 //@   ensures [C04.reuse-invalid-grant-unless-fault] reuse && canhandle && faults == old(faults) ==> ekind(err) == "invalid_grant"
@@ -227,7 +239,7 @@ package oauth2
 //@   let asig = c.AccessTokenStrategy.AccessTokenSignature(ctx, responder.GetAccessToken())
 //@   let rsig = c.RefreshTokenStrategy.RefreshTokenSignature(ctx, unbox(responder.GetExtra("refresh_token"), string))
 //@   requires c != nil && requester != nil && responder != nil && !stored[requester]
-//@   modifies code_active, acc_exists, acc_rid, acc_client, acc_req, ref_exists, ref_active, ref_rid, ref_client, ref_acc, ref_req, stored, faults, tx_open, tx_begun, tx_committed, tx_rolledback, tx_commit_calls, tx_rollback_calls, snap_code_active, snap_acc_exists, snap_ref_exists, snap_ref_active
+//@   modifies code_active, acc_exists, acc_rid, acc_client, acc_req, ref_exists, ref_active, ref_rid, ref_client, ref_acc, ref_req, stored, faults, tx_open, tx_begun, tx_committed, tx_rolledback, tx_commit_calls, tx_rollback_calls, snap_code_active, snap_acc_exists, snap_ref_exists, snap_ref_active, snap_dev_live, dev_live
 //@   ensures [C04.rotate-then-create] err == nil ==> acc_exists[asig] && acc_rid[asig] == rid && ref_exists[rsig] && ref_active[rsig] && ref_rid[rsig] == rid && ref_acc[rsig] == asig
 //@   ensures [C04.only-new-pair-live] err == nil ==> (forall s string :: acc_exists[s] && acc_rid[s] == rid ==> s == asig) && (forall s string :: ref_exists[s] && ref_active[s] && ref_rid[s] == rid ==> s == rsig)
 //@   ensures [C04.presented-becomes-inactive] err == nil && old(ref_exists[sig]) && old(ref_rid[sig]) == rid && sig != rsig ==> !ref_active[sig]
